@@ -5,7 +5,7 @@
 # Evidence files are overwritten: run tools_runall.sh afterwards.   usage: tools_seedmatrix.sh [id-glob]
 cd /verif
 glob=${1:-C*-*}
-out=seeded/MATRIX.txt
+out=${OUT:-seeded/MATRIX.txt}
 [ "$glob" = "C*-*" ] && : > $out
 keep=$(mktemp -d /tmp/seedreplays.XXXXXX)
 declare -A EXTRA=( [C02-1]="C03" [C13-1]="C03" [C11-2]="C09" [C04-1]="C01" [C01-2]="C04" [C01-4]="C04" [C15-3]="C05" [C06-3]="C08" [C08-5]="C04" )
